@@ -478,6 +478,60 @@ func checkC20(r *Result) {
 		}
 		r.check(adds == 1, "MEDIAN-SHAPE", "lib.Median # one sum of two elements", P.Pos(med.Pos()), fmt.Sprintf("%d additions of two elements", adds))
 	}
+	// the serving layer above the cache (median server): the address of a range variable must not outlive its iteration.
+	// The module is built with go 1.21 semantics (one variable per loop), so `m[k] = &v` makes every entry point at the
+	// last element
+	{
+		n, scanned := 0, 0
+		for _, fn := range P.RepoFuncs {
+			if fn.Pkg == nil {
+				continue
+			}
+			pp := fn.Pkg.Pkg.Path()
+			if !strings.Contains(pp, "/daemons/server") && !strings.Contains(pp, "/daemons/pricefeed") && !strings.HasSuffix(pp, "/lib") {
+				continue
+			}
+			scanned++
+			for _, b := range fn.Blocks {
+				if !inLoop(fn, b) {
+					continue
+				}
+				for _, in := range b.Instrs {
+					var stored ssa.Value
+					switch x := in.(type) {
+					case *ssa.MapUpdate:
+						stored = x.Value
+					case *ssa.Store:
+						if _, isIdx := x.Addr.(*ssa.IndexAddr); isIdx {
+							stored = x.Val
+						}
+						if _, isFld := x.Addr.(*ssa.FieldAddr); isFld {
+							stored = x.Val
+						}
+					}
+					al, ok := stored.(*ssa.Alloc)
+					if !ok || !al.Heap {
+						continue
+					}
+					// the cell is allocated outside the loop but written inside it: a loop variable whose address escapes
+					if inLoop(fn, al.Block()) && innermostLoopHeader(fn, al.Block()) == innermostLoopHeader(fn, b) {
+						continue
+					}
+					writtenInLoop := false
+					for _, ref := range *al.Referrers() {
+						if st, isSt := ref.(*ssa.Store); isSt && st.Addr == ssa.Value(al) && inLoop(fn, st.Block()) {
+							writtenInLoop = true
+						}
+					}
+					if writtenInLoop {
+						n++
+						r.bad("NO-ESCAPE", FuncName(TopFunc(fn))+" # the address of loop variable "+al.Comment+" is stored beyond its iteration", P.Pos(in.Pos()), "every stored pointer refers to the one variable of the loop (go 1.21 semantics): all entries end up equal to the last element")
+					}
+				}
+			}
+		}
+		r.check(n == 0 && scanned > 10, "NO-ESCAPE", "no address of a loop variable is stored beyond its iteration in the price daemon's server and cache packages", "-", fmt.Sprintf("%d functions scanned", scanned))
+	}
 	r.minCount("LOCK-HELD", 4)
 	r.minCount("LOCK-PAIRED", 2)
 	r.minCount("FRESHNESS", 6)
